@@ -479,6 +479,13 @@ def c01_cases(tier, seed):
                 keys += ["Q", "Esc"]
             keys += [rng.choice(["p", "P"]), "u", ".", "Enter"]
             cases.append(Case(keys, mode="vi", initial=(t[:k], t[k:]), timeout=0, prompt="> ", meta={}))
+            # the search used as an operator's motion is the one `;` and `,` repeat afterwards (also when a plain search came first)
+            keys2 = ["Esc"] + rng.choice([[], ["0", "f", rng.choice([c for c in t if c != "\n"])], ["$", "F", rng.choice([c for c in t if c != "\n"])]])
+            keys2 += ([rng.choice("23")] if rng.random() < 0.3 else []) + [op, cs, target]
+            if op == "c":
+                keys2 += ["Q", "Esc"]
+            keys2 += rng.choice([[";", "x"], [",", "x"], [";", ";", "x"], ["d", ";"], ["2", ";", "r", "#"], ["y", ",", "P"]]) + ["Enter"]
+            cases.append(Case(keys2, mode="vi", initial=(t[:k], t[k:]), timeout=0, prompt="> ", meta={}))
     # words whose case mappings change the UTF-8 length (dotless i, ligature fi, I with dot, Kelvin sign, sharp s, n with
     # apostrophe, dz digraph) under M-u / M-l / M-c with counts, followed by an insertion at the resulting cursor
     cw = ["\u0131x", "\ufb01ne", "\u0130st", "\u212aelvin", "stra\u00dfe", "\u0149a", "\u01c6b", "ab", "X\u0131", "i\u0307"]
